@@ -643,6 +643,17 @@ impl Cell {
             }
             return k;
         }
+        if obj == "zero.ataem" {
+            // the associated token account of the DEFAULT pubkey (= the system program id) for the emissions mint: anybody can
+            // create it with the stock ATA program; nobody controls it
+            let em = self.resolve("em");
+            let (program, _, _) = mint_info(&self.w, &em);
+            let k = crate::sim::runtime::ata_address(&Pubkey::default(), &em, &program);
+            if self.w.account(&k).is_none() {
+                mk_ata(&mut self.w, em, Pubkey::default(), 0);
+            }
+            return k;
+        }
         if obj.starts_with("pda[") {
             let mut lookups: Vec<(String, Pubkey)> = vec![];
             for p in obj[4..obj.len() - 1].split(';') {
@@ -730,6 +741,11 @@ impl Cell {
             "del" => {
                 let k = self.resolve(p[1]);
                 self.w.accounts.remove(&k);
+            }
+            // the account never registered an emissions destination (the state of every new account)
+            "edest0" => {
+                let k = self.resolve(p[1]);
+                self.w.update::<MarginfiAccount>(&k, |a| a.emissions_destination_account = Pubkey::default());
             }
             // liquidation record receiver := obj (as start_liquidation / start_deleverage leave it)
             "recv" => {
